@@ -257,7 +257,7 @@ def check_string_case(ctx_i, tgt_i, body, new):
 
 def plan(ctx):
     return [('shard_strings', [('str', i, 8) for i in range(8)]),
-            ('shard_docs', [('doc', 'strict', ctx.pick(140, 2500), i) for i in range(16)])]
+            ('shard_docs', [('doc', 'strict', ctx.pick(140, 1500), i) for i in range(16)])]
 
 
 def shard_strings(ctx, shard):
